@@ -1,7 +1,7 @@
 //! C09 - on-disk B+tree index answers exactly like the in-memory index it was built from.
 //!
 //! Engine 1: H3 index probe (push / dump / load / get_latest / get_all) over systematically
-//! enumerated shapes. Engine 2 (end-to-end through Storage with long keys) lives in `c09_storage`.
+//! enumerated shapes. Engine 2 (end-to-end through Storage with 71- and 503-byte keys) is `storage_engine` below.
 
 use crate::evidence::{Meta, Shard};
 use crate::parse;
@@ -17,7 +17,7 @@ pub fn plan() -> Plan {
         meta: Meta {
             property: "C09",
             level: "exploration",
-            rule: "differential: for each enumerated shape a header multiset is pushed into the real in-memory index (H3 probe); get_latest / get_all_with_deletion_marker / count are recorded for every present key and for absent keys below, between every adjacent pair and above; the index is dumped and the same queries are repeated on the B+tree file (must be identical tuples in identical order), after re-opening the file, and after loading it back into memory; answers are also compared with the harness' own expectation (ts desc, push order desc, cut after first marker) and the file is parsed independently (sorted leaves, hash, count). Shapes: key lengths {1,2,3,4,7,8,16,32,34,71,128,184,199,455,967,1000} (leaf blocks: 4096 mod header size = 0 for 7/71/199/455/967, = 1 for 8/34, = size-1 for 184; inner nodes: a full node is exactly 4096 bytes for 196/264/332/400/502 and would be 4097..4104 bytes with one child too many for 48/65/138/284/503/576) x key counts sweeping through every last-leaf remainder and 1..3+ inner levels x version runs of length {B-1,B,B+1,2B,7B} (B = headers per 4 KiB block) at first/middle/last key, random runs, timestamp ties, markers at top/middle/bottom; sequential and random keys. A shape is non-trivial when the tree has >=1 inner node or a run longer than one block; distinct = hash of the shape description.",
+            rule: "differential: for each enumerated shape a header multiset is pushed into the real in-memory index (H3 probe); get_latest / get_all_with_deletion_marker / count are recorded for every present key and for absent keys below, between every adjacent pair and above; the index is dumped and the same queries are repeated on the B+tree file (must be identical tuples in identical order), after re-opening the file, and after loading it back into memory; answers are also compared with the harness' own expectation (ts desc, push order desc, cut after first marker) and the file is parsed independently (sorted leaves, hash, count). Shapes: key lengths {1,2,3,4,7,8,16,32,34,71,128,184,199,455,967,1000} (leaf blocks: 4096 mod header size = 0 for 7/71/199/455/967, = 1 for 8/34, = size-1 for 184; inner nodes: a full node is exactly 4096 bytes for 196/264/332/400/502 and would be 4097..4104 bytes with one child too many for 48/65/138/284/503/576) x key counts sweeping through every last-leaf remainder and 1..3+ inner levels x version runs of length {B-1,B,B+1,2B,7B} (B = headers per 4 KiB block) at first/middle/last key, random runs, timestamp ties, markers at top/middle/bottom; sequential and random keys. Engine 2: the real Storage with 71- and 503-byte keys is bulk-loaded with key counts around the one- and two-inner-level thresholds, and the whole query surface is compared with the model with the index in memory, dumped, after restart and after a delete-triggered reload + re-dump. A shape is non-trivial when the tree has >=1 inner node or a run longer than one block; distinct = hash of the shape description.",
             assumptions: vec!["the probe builds headers with the same layout arithmetic as the write path (blob_offset / checksum patching)", "verdict holds for the shapes enumerated for this seed"],
         },
         shards: 16,
@@ -463,9 +463,85 @@ fn shapes_for(keylen: usize, thorough: bool, rng: &mut Rng) -> Vec<Shape> {
     out
 }
 
+/// Engine 2: the same kind of shapes end-to-end through `Storage` with long keys (small fan-out), so that
+/// multi-level trees are built by the real dump path and queried through filters + index files.
+async fn storage_engine<const N: usize>(d: &mut crate::drive::Driver<N>, n_keys: u16, rng: &mut Rng) -> Result<(), crate::drive::Mismatch> {
+    use crate::drive::S_ALL_QUERIES;
+    use crate::ops::Op;
+    d.open(false).await?;
+    let mut order: Vec<u16> = (0..n_keys).collect();
+    rng.shuffle(&mut order);
+    for (i, k) in order.iter().enumerate() {
+        let versions = if i % 17 == 0 { rng.range(2, 9) } else { 1 };
+        for _ in 0..versions {
+            d.step(&Op::Put { k: *k, ts: rng.range(0, 3), meta: None, size: 12 }).await?;
+        }
+        if i % 23 == 5 {
+            d.step(&Op::Del { k: *k, ts: rng.range(0, 3), meta: None, only_if: false }).await?;
+        }
+    }
+    d.check(S_ALL_QUERIES).await?;
+    d.step(&Op::Close).await?;
+    d.step(&Op::Dump).await?;
+    d.check(S_ALL_QUERIES).await?;
+    d.step(&Op::Restart { lazy: rng.chance(1, 2), rm_idx: 0 }).await?;
+    d.check(S_ALL_QUERIES).await?;
+    // a delete into the on-disk-indexed blob reloads the index, the re-dump rebuilds the tree
+    for _ in 0..3 {
+        let k = rng.below(n_keys as u64) as u16;
+        d.step(&Op::Del { k, ts: 2, meta: None, only_if: true }).await?;
+    }
+    d.step(&Op::Dump).await?;
+    d.check(S_ALL_QUERIES).await?;
+    d.close().await?;
+    Ok(())
+}
+
+fn run_storage_engine(ctx: &Ctx, sh: &mut Shard, rng: &mut Rng) {
+    let keylen = *rng.pick(&[71usize, 503]);
+    let (b, fan) = (4096 / (57 + keylen), (4096 - 16) / (keylen + 8) + 1);
+    // key counts around the one- and two-inner-level thresholds of this key length
+    let leaves = *rng.pick(&[1usize, 2, fan - 1, fan, fan + 1, 2 * fan, fan * fan / 2 + 1]);
+    let n_keys = ((leaves * b) as i64 + rng.range(0, 2) as i64 - 1).clamp(1, 1200) as u16;
+    let mut cfg = crate::drive::Cfg::default_for(n_keys, 0);
+    cfg.keylen = keylen;
+    cfg.key_salt = rng.next();
+    cfg.bloom = rng.below(2) as u8;
+    cfg.mt = rng.chance(2, 3);
+    let dir = new_dir("c09s-");
+    let seed = rng.next();
+    let mut crng = Rng::new(seed);
+    let res = if keylen == 71 {
+        let mut d: crate::drive::Driver<71> = crate::drive::Driver::new(dir.clone(), cfg.clone(), 0xC09);
+        block_on_catch(cfg.mt, storage_engine(&mut d, n_keys, &mut crng)).map(|r| (r, d.stats.compared))
+    } else {
+        let mut d: crate::drive::Driver<503> = crate::drive::Driver::new(dir.clone(), cfg.clone(), 0xC09);
+        block_on_catch(cfg.mt, storage_engine(&mut d, n_keys, &mut crng)).map(|r| (r, d.stats.compared))
+    };
+    rm_dir(&dir);
+    sh.evaluations += 1;
+    sh.add("storage_engine_runs", 1);
+    sh.add(&format!("storage_engine_keylen_{}", keylen), 1);
+    sh.nontrivial.insert(fnv(format!("se-{}-{}-{}", keylen, n_keys, seed).as_bytes()));
+    let replay = json!({"check": "c09-storage-engine", "cfg": cfg.to_json(), "n_keys": n_keys, "seed": seed});
+    match res {
+        Ok((Ok(()), compared)) => sh.add("storage_engine_queries_compared", compared),
+        Ok((Err(m), _)) => {
+            sh.violation(&ctx.known, "C09", ctx.seed, &format!("C09/storage-engine/{}", m.sig), &format!("key length {}, {} keys: {}", keylen, n_keys, m.detail), replay);
+        }
+        Err(p) => sh.violation(&ctx.known, "C09", ctx.seed, "C09/storage-engine/panic", &format!("key length {}, {} keys: {}", keylen, n_keys, p), replay),
+    }
+}
+
 pub fn shard(ctx: &Ctx) -> Shard {
     let mut sh = Shard::default();
     let mut rng = Rng::new(ctx.shard_seed());
+    // engine 2 gets the last third of the budget
+    let total = ctx.deadline.saturating_duration_since(std::time::Instant::now());
+    let full_ctx = ctx;
+    let mut sub = ctx.clone();
+    sub.deadline = std::time::Instant::now() + total * 2 / 3;
+    let ctx = &sub;
     let mut gen_rng = Rng::new(crate::rng::mix(ctx.seed, 0xC09));
     // all shards generate the same shape list, each takes its slice
     let mut all: Vec<Shape> = Vec::new();
@@ -535,5 +611,10 @@ pub fn shard(ctx: &Ctx) -> Shard {
         }
     }
     sh.add("shapes_skipped_time_budget", skipped);
+    let mut n2 = 0;
+    while full_ctx.time_left() && n2 < if full_ctx.thorough() { 100_000 } else { 40 } {
+        run_storage_engine(full_ctx, &mut sh, &mut rng);
+        n2 += 1;
+    }
     sh
 }
